@@ -599,3 +599,10 @@ fn test_decode_macro_string() {
         "[)>\x1e06\x1dA\x1e\x04",
     );
 }
+
+/// Access for the external verification harness: (codewords consumed, ECI number).
+#[cfg(datamatrix_verif)]
+pub(crate) fn verif_read_eci(data: &[u8]) -> Result<(usize, u32), DataDecodingError> {
+    let (rest, eci) = read_eci(Reader(data, 0))?;
+    Ok((data.len() - rest.len(), eci))
+}
